@@ -1,7 +1,7 @@
 """Driver (fresh interpreter, emitted tree on sys.path): compile, inspect and EXECUTE every emitted sample.
 
-payload: {api, module, root_module, req_type, services: [{name, snake}], rpcs: {RpcName: {form, out}},
-          book, list_resp, pkg, dep_modules: [python module names of proto dependency files]}
+payload: {api, module, root_module, pkg, services: [{name, snake}], rpcs: {RpcName: {form, req: full name}},
+          book, list_resp: full names of the reply types}
 result : {samples: {file: OBS}, metadata: {file, entries: [..]} | null, clients: {..}, errors: [..]}
 
 Everything returned is a *projection* (DESIGN 0): line kinds by pure lexing, JSON field selection, `inspect`
@@ -90,7 +90,7 @@ def lex(text, intern):
 
 
 # ---- AST: which names does the sample import and use ---------------------------------------------------
-def import_check(text, root, root_module, dep_modules):
+def import_check(text, root, root_module):
     """[{module, name, kind: emitted|dependency|unresolved}], [{base, attr, public}] for every attribute taken
     from an imported module alias."""
     try:
@@ -230,7 +230,7 @@ class World:
             self.calls.append(ent)
         if rpc is None:
             return 404, b'{}', {}
-        m = self.pool.cls(self.pl['req_type'])()
+        m = self.pool.cls(self.pl['rpcs'][rpc]['req'])()
         try:
             if entry['body']:
                 json_format.Parse(entry['body'].decode(), m, descriptor_pool=self.pool.pool)
@@ -295,8 +295,9 @@ def execute(w, path, text):
         if isinstance(e, KeyboardInterrupt):
             raise
         tb = traceback.extract_tb(e.__traceback__)
-        where = next((f'line {f.lineno}: {f.line}' for f in reversed(tb) if f.filename == path), '')
-        obs['raised'] = dict(type=type(e).__name__, msg=str(e)[:300], where=where)
+        fr = next((f for f in reversed(tb) if f.filename == path), None)
+        obs['raised'] = dict(type=type(e).__name__, msg=str(e)[:300], line=fr.lineno if fr else 0,
+                             text=(fr.line or '') if fr else '')
     w.settle()
     obs['stdout'] = out.getvalue()[:300]
     with w.lock:
@@ -305,7 +306,9 @@ def execute(w, path, text):
         svc_rpc = w.paths.get(c['path'])
         reqs = []
         for raw in c['reqs']:
-            m = w.pool.cls(w.pl['req_type'])()
+            if not svc_rpc:
+                reqs.append(['?unknown-path']); continue
+            m = w.pool.cls(w.pl['rpcs'][svc_rpc[1]]['req'])()
             try:
                 m.ParseFromString(raw)
                 reqs.append(populated_paths(m))
@@ -468,7 +471,7 @@ def main():
         for f in files:
             text = open(f).read()
             kinds, texts, ts, te = lex(text, intern)
-            imports, uses = import_check(text, root, pl['root_module'], pl.get('dep_modules', []))
+            imports, uses = import_check(text, root, pl['root_module'])
             obs = dict(kinds=kinds, texts=texts, start_tags=ts, end_tags=te, imports=imports, uses=uses,
                        final_newline=text.endswith('\n'))
             obs['exec'] = execute(w, f, text)
